@@ -317,3 +317,50 @@ def CS.voxelForm (cs : CS) (f : CallForm) (x : List Rat) : Except Err (List Int)
 
 end Darsia
 
+
+/-! ### `__getitem__` of the typed point arrays (`CoordinateArray`, `VoxelArray`, `VoxelCenterArray`) -/
+namespace Darsia
+
+inductive ArrKind | coord | vox | ctr
+  deriving Repr, DecidableEq
+
+/-- the key handed to `arr[key]`: a Python int, a 1-d integer index array, a 1-d boolean mask, anything else (slice, tuple, …) -/
+inductive GetKey
+  | int (k : Int)
+  | idx (ks : List Int)
+  | mask (m : List Bool)
+  | other
+  deriving Repr, DecidableEq
+
+/-- class of the result: the ELEMENT class for an int key, the SAME array class for a 1-d ndarray key (index array or
+mask), a plain ndarray otherwise -/
+inductive ResKind | elem (k : ArrKind) | arr (k : ArrKind) | plain
+  deriving Repr, DecidableEq
+
+def getItemKind (k : ArrKind) : GetKey → ResKind
+  | .int _ => .elem k
+  | .idx _ => .arr k
+  | .mask _ => .arr k
+  | .other => .plain
+
+def pyIdx (n : Nat) (k : Int) : Except Err Nat :=
+  if 0 ≤ k ∧ k < n then .ok k.toNat else if k < 0 ∧ -(n : Int) ≤ k then .ok (k + n).toNat else .error .index
+
+/-- numpy row selection `np.asarray(self)[key]` for the modelled keys -/
+def selectRows {α} (rows : List α) : GetKey → Except Err (List α)
+  | .int k => (pyIdx rows.length k).bind fun i => match rows[i]? with | some r => .ok [r] | none => .error .index
+  | .idx ks => ks.mapM fun k => (pyIdx rows.length k).bind fun i => match rows[i]? with | some r => .ok r | none => .error .index
+  | .mask m => if m.length = rows.length then .ok ((rows.zip m).filterMap fun p => if p.2 then some p.1 else none) else .error .index
+  | .other => .error .notImpl
+
+/-- the constructor the selected rows are passed through again (`VoxelCenterArray(np.asarray(self)[key])`, …) -/
+def rewrap : ArrKind → List Rat → List Rat
+  | .coord => id
+  | .vox => fun r => ratsOfInts (mkVoxel r)
+  | .ctr => mkCenter
+
+/-- `arr[key]`: result class and rows -/
+def getItem (k : ArrKind) (rows : List (List Rat)) (key : GetKey) : Except Err (ResKind × List (List Rat)) :=
+  (selectRows rows key).map fun sel => (getItemKind k key, sel.map (rewrap k))
+
+end Darsia
